@@ -93,6 +93,7 @@ let parse_msg (b : int array) : msg option =
       let t = u16 o and c = u16 (o + 2) in
       qs := (nm, t, c) :: !qs; off := o + 4
     done;
+    let cookie_seen = ref false in
     let opt = ref false and cookie = ref None and nopts = ref 0 and tag = ref None and minttl = ref 0xFFFFFFFF
     and soa = ref false and ext = ref 0 in
     for i = 1 to an + ns + ar do
@@ -107,7 +108,10 @@ let parse_msg (b : int array) : msg option =
           let code = u16 !p and len = u16 (!p + 2) in
           if !p + 4 + len > rd + rdlen then raise Bad;
           (* ares_dns_rr_get_opt_byid returns the FIRST option with the id *)
-          if code = 10 then (if !cookie = None then cookie := Some (List.init len (fun j -> b.(!p + 4 + j)))) else incr nopts;
+          if code = 10 then begin
+            (* ... and ares_dns_cookie_fetch yields NULL for an option without content *)
+            if not !cookie_seen then (cookie_seen := true; if len > 0 then cookie := Some (List.init len (fun j -> b.(!p + 4 + j))))
+          end else incr nopts;
           p := !p + 4 + len
         done end
       else begin
